@@ -322,7 +322,11 @@ class Interp:
         elif isinstance(s, ast.Continue):
             raise _Continue()
         elif isinstance(s, ast.Raise):
-            raise AbsRaise(self.eval(s.exc, env) if s.exc is not None else None)
+            if s.exc is None:
+                # bare raise: the exception being handled
+                cur = getattr(self, "_handling", [])
+                raise AbsRaise(cur[-1] if cur else None)
+            raise AbsRaise(self.eval(s.exc, env))
         elif isinstance(s, ast.Try):
             try:
                 try:
@@ -333,7 +337,13 @@ class Interp:
                     h = s.handlers[0]
                     if h.name:
                         env.vars[h.name] = e.value
-                    self.exec_block(h.body, env)
+                    if not hasattr(self, "_handling"):
+                        self._handling = []
+                    self._handling.append(e.value)
+                    try:
+                        self.exec_block(h.body, env)
+                    finally:
+                        self._handling.pop()
                 else:
                     self.exec_block(s.orelse, env)
             finally:
